@@ -487,6 +487,7 @@ func (c c04) Execute(p *core.Plan) *core.Result {
 	mo := &monitor{res: res, cs: codecs(), prev: map[string][]byte{}, mut: core.NewRand(uint64(p.C("mutseed", 1)))}
 	nm := int(p.C("mutants", 30))
 	seenChallenge := map[int]bool{}
+	swept := map[int]bool{}
 	// the monitor sits on the wire: it sees every message about to be sent
 	w.Adversary = func(m *simnet.Msg) []world.Sending {
 		s := w.Sessions[m.Sess]
@@ -500,6 +501,24 @@ func (c c04) Execute(p *core.Plan) *core.Result {
 			u := append([]byte(nil), m.Payload...)
 			u[0], u[1] = 0x12, 0x34
 			mo.misroute(0x1234, u, "unknown-type-code")
+			if p.Index%50 == 0 && !swept[s.Type] {
+				// every one of the 65 535 other type tags on this message, at its own decoder
+				swept[s.Type] = true
+				name := fmt.Sprintf("Request%d", s.Type)
+				for tag := 0; tag < 1<<16; tag++ {
+					if tag == s.Type {
+						continue
+					}
+					u[0], u[1] = byte(tag>>8), byte(tag)
+					var ok bool
+					if pv := safely(func() { _, ok = mo.cs[name].decode(u) }); pv == nil && ok {
+						mo.res.Violate(fmt.Sprintf("C04/C/%s-accepts-foreign-tag", name), fmt.Sprintf("the type-%d request decoder accepted a message tagged %#04x", s.Type, tag), -1)
+						break
+					}
+				}
+				mo.res.Evals += 1<<16 - 1
+				mo.res.Probe("type-tag space swept exhaustively on one message")
+			}
 			if !seenChallenge[s.ID] && len(s.Challenge) > 0 {
 				seenChallenge[s.ID] = true
 				if _, err := tokens.UnmarshalTokenChallenge(s.Challenge); err == nil {
